@@ -196,7 +196,7 @@ class kLeastAbsErrorsCycles(walkmodel.AbstractWalkModelDiGraph):
         # If k is not specified, we set k to the edge width of the graph
         if self.k is None:
             self.k = self.G.get_width(list(self.edges_to_ignore))
-        self.optimization_options = optimization_options or {}        
+        self.optimization_options = optimization_options.copy() if optimization_options else {}  # never modify the caller's dict
 
         self.subset_constraints_coverage = subset_constraints_coverage
         
